@@ -6,7 +6,7 @@ set_option maxRecDepth 100000
 
 /-- status, page returned -/
 def cexD4Out : Res × Nat × Nat :=
-  match searchNext exAb walkFuel cexD4 cexD4Search (-1) with
+  match searchNext Shape.current exAb walkFuel cexD4 cexD4Search (-1) with
   | o => (o.res, o.st.pgPgno, o.st.pgSubno)
 
 theorem cexD4_search : cexD4Out = (.ret SEARCH_SUCCESS, 0x102, 0) := by decide +kernel
